@@ -136,8 +136,10 @@ def random_history(rng, length, weights=None):
         if kind == "apply":
             p = rng.choice(pipes if rng.random() < .35 else valid)
             hist.append({"op": "apply", "pipe": p,
-                         "via": rng.choices(["obj", "fresh", "details"],
-                                            [.15, .65, .2])[0]})
+                         "via": rng.choices(["obj", "fresh", "details",
+                                             "attr"],
+                                            [.15, .5, .15, .2])[0],
+                         "noargs": rng.random() < .5})
             if hist[-1]["via"] == "obj":
                 hist.insert(-1, {"op": "mutate_pl", "pipe": p})
         elif kind == "fit":
@@ -281,8 +283,8 @@ def signature(op):
             (",obj)" if op.get("via") == "obj" else ")")
     if k == "rate":
         return f"rate({op['rater']})"
-    if k in ("mutate_pl",):
-        return f"mutate_pl({op['pipe']})"
+    if k in ("mutate_pl", "mutate_attr"):
+        return f"{k}({op['pipe']})"
     if k == "mutate_pi":
         return f"mutate_pi({op['val']})"
     if k == "getinit":
